@@ -216,10 +216,18 @@ func cloneRaw(in []config.RawConverter) []config.RawConverter {
 // PerConverter evaluates every converter of the loaded program separately
 // (config parse + generation), with optional edits of the raw lines.
 func (l *Loaded) PerConverter(global []string, edit func(rc *config.RawConverter)) []ConvResult {
+	return l.PerConverterOnly(-1, global, edit)
+}
+
+// PerConverterOnly is PerConverter restricted to the converter with index only (-1: all).
+func (l *Loaded) PerConverterOnly(only int, global []string, edit func(rc *config.RawConverter)) []ConvResult {
 	raws := cloneRaw(l.Raw)
 	var out []ConvResult
 	c := l.Opts.cfg()
 	for i := range raws {
+		if only >= 0 && i != only {
+			continue
+		}
 		rc := raws[i]
 		if edit != nil {
 			edit(&rc)
